@@ -1,6 +1,7 @@
 package main
 
 import (
+	"fmt"
 	"math/big"
 
 	"golang.org/x/tools/go/ssa"
@@ -271,11 +272,23 @@ func init() {
 		if n < 0 {
 			panic(pathAbort{"unwind"})
 		}
-		vals := make([]Value, n)
-		for i := 0; i < n; i++ {
-			sh := 8 * (n - 1 - i)
-			vals[i] = iModE(iDivE(mag, mkInt(pow2(sh))), mkInt64(256))
+		// definitional encoding: fresh byte variables with mag = sum b_i * 256^(n-1-i), 0 <= b_i <= 255
+		// (the bytes are uniquely determined, so this adds no freedom); far cheaper for the solver
+		// than div/mod extraction once the bytes are compared with other keys.  Memoised per value.
+		key := fmt.Sprintf("bigbytes:%p:%d", mag, n)
+		if v, ok := p.aux[key]; ok {
+			return p.sliceFrom(v.([]Value))
 		}
+		vals := make([]Value, n)
+		sum := mkInt64(0)
+		for i := 0; i < n; i++ {
+			b := p.sol.FreshVar("bigbyte", SInt, 0)
+			p.sol.Assert(tAnd(iLe(mkInt64(0), b), iLe(b, mkInt64(255))))
+			vals[i] = b
+			sum = iAdd(sum, iMul(b, mkInt(pow2(8*(n-1-i)))))
+		}
+		p.sol.Assert(tEq(sum, mag))
+		p.aux[key] = vals
 		return p.sliceFrom(vals)
 	})
 	reg(B+"SetBytes", func(p *Path, fn *ssa.Function, a []Value) Value {
